@@ -206,6 +206,9 @@ namespace c07
         setv(tmp, s.b); lf.filter_def(tmp); s.b = getv(tmp);
         s.x0_cls = "n/a";
       }
+      // what matters to a Krylov method is the initial residual b - A x0: an (almost) exact start vector leaves rounding noise or a
+      // single perturbed component, i.e. a degenerate Krylov space (false alarm seen: BiCGStab(1) 0/0 after the exact first step)
+      if(s.correct && (s.x0_cls == "exact" || s.x0_cls == "near-exact")) s.rhs_generic = false;
       if(have_filter && s.rhs_generic) { for(int i = 0; i < n; ++i) if(!fixed[(size_t)i] && s.b[(size_t)i] == 0.0) s.rhs_generic = false; }
       if(avoid_zero_def)
       {
@@ -219,7 +222,7 @@ namespace c07
           if(norm2(resid(D, x0L, bL)) > 64.0L * (LD)n * u * (Afro * xn + bn) && bn + xn > 0.0L) break;
           int f = 0; while(f < n && fixed[(size_t)f]) ++f;
           if(f >= n) break;   // fully constrained: handled by the filter generator
-          s.b[(size_t)f] += (double)(guard + 1) * std::max(1.0, std::fabs(diag[(size_t)f])); s.rhs_cls += "+nz"; s.exact_start = false; if(s.x0_cls == "exact" || s.x0_cls == "near-exact") s.x0_cls += "-perturbed";
+          s.b[(size_t)f] += (double)(guard + 1) * std::max(1.0, std::fabs(diag[(size_t)f])); s.rhs_cls += "+nz"; s.exact_start = false; s.rhs_generic = false; if(s.x0_cls == "exact" || s.x0_cls == "near-exact") s.x0_cls += "-perturbed";
         }
       }
       (void)first; return s;
@@ -298,6 +301,8 @@ namespace c07
     if(avoid_idrs_reinit && reinit == 2) reinit = 1;
     int done_style = t.pick({2, 1});
     bool poison = t.flag(1, 3);
+    //  BiCGStab(l) scales its never-written work vectors u_j by beta = 0 in the first sweep (0 * NaN = NaN)
+    if(kind == K_BICGSTABL && poison && c.excl("c07-bicgstabl-uninit-work-vectors")) poison = false;
     std::vector<std::string> ops;
     ops.push_back(init_style ? "init_symbolic+init_numeric" : "init"); ops.push_back("A");
     if(rep_a) ops.push_back("A"); if(have_b) ops.push_back("B");
@@ -358,12 +363,15 @@ namespace c07
     c.fd = -1;   // the description is complete: suppress the scaffold's re-announce at the end of the case (it would count every label twice)
 
     // ---- judged run
-    if(poison)
-    {
-      // fresh allocations have unspecified content (MemoryPool uses plain malloc): leave NaN patterns in the free lists
-      // through the public API only, so that a solver reading one of its work vectors before writing it is exposed
-      std::vector<LV> junk; for(int k = 0; k < 48; ++k) junk.emplace_back((Index)n, DT(NaN));
-    }
+    // Fresh allocations have unspecified content (MemoryPool uses plain malloc) and the forked child inherits whatever the
+    // parent's heap holds.  To keep the verdict a function of the case, the free lists are conditioned through the public
+    // API before every (re-)initialisation: work-vector sized blocks filled with 0 ("clean"), or with NaN in the
+    // "heap:nan-poisoned" class, where a fresh solver on clean memory serves as reference: a solver that reads a work
+    // vector before writing it gives different results (same inputs => same result, S5; in-scope convergence, S3).
+    auto heap = [&](double v) { std::vector<LV> junk; for(int k = 0; k < 160; ++k) junk.emplace_back((Index)n, DT(v)); };
+    SR R0;
+    if(poison) { heap(0.0); auto s0 = mk(); s0->init(); R0 = do_solve(*s0, SA, NaN, nullptr); s0->done(); s0.reset(); heap(NaN); }
+    else heap(0.0);
     auto solver = mk();
     Limits<DT> L(*solver);
     const bool plot_iter = (cfg.plot == 1 || cfg.plot == 3);
@@ -439,27 +447,35 @@ namespace c07
     // RGCR recycles a quarter of its search directions from the previous solve *by design*; a repeated solve
     // reproduces them exactly only if the previous solve on this symbolic state had the same inputs
     bool rgcr_clean = true;
-    SR R1 = do_solve(*solver, SA, NaN, &ra); if(getenv("C07_DEBUG")) { FILE* df = fopen(getenv("C07_DEBUG"), "a"); if(df) { fprintf(df, "C07DBG first solve: %s/%lu poison=%d\n", status_name(R1.status), R1.iters, (int)poison); fclose(df); } } judge(SA, R1, ra, "solve#1");
+    // same finding as the uninitialised work vectors: BiCGStab(l) never resets u_j, so a solve that broke down (NaN) poisons
+    // every later solve on the same symbolic state.  With the finding switched off such a solver is re-created (done/init on
+    // clean memory) before it is used again.
+    const bool reset_tainted = (kind == K_BICGSTABL) && c.excl("c07-bicgstabl-uninit-work-vectors");
+    auto tainted = [&](const SR& r) { if(!std::isfinite((double)r.defF)) return true; for(LD v : r.x) if(!std::isfinite((double)v)) return true; return false; };
+    auto untaint = [&](const SR& r) { if(reset_tainted && tainted(r)) { solver->done(); heap(0.0); solver->init(); } };
+    SR R1 = do_solve(*solver, SA, NaN, &ra); untaint(R1);
+    if(poison) same(R0, R1, "fresh solver objects on zero-filled vs NaN-filled free memory (result depends on uninitialised work vectors)");
+    judge(SA, R1, ra, "solve#1");
     if(rep_a)
     {
-      SR R2 = do_solve(*solver, SA, 0.0, &ra); judge(SA, R2, ra, "repeat");
+      SR R2 = do_solve(*solver, SA, 0.0, &ra); untaint(R2); judge(SA, R2, ra, "repeat");
       same(R1, R2, SA.correct ? "repeated correct()" : "apply() with NaN vs zero prior content of the output vector");
     }
     if(!SA.correct && !rep_a)
     {
       // S4 needs the second run in any case: prior content of the output vector must not matter
-      SR R2 = do_solve(*solver, SA, 1e30, &ra); same(R1, R2, "apply() with NaN vs 1e30 prior content of the output vector");
+      SR R2 = do_solve(*solver, SA, 1e30, &ra); untaint(R2); same(R1, R2, "apply() with NaN vs 1e30 prior content of the output vector");
     }
     if(have_b)
     {
-      SR RB = do_solve(*solver, SB, NaN, &ra);
+      SR RB = do_solve(*solver, SB, NaN, &ra); untaint(RB);
       // B is judged with S1/S2/S4 (no S3 claim)
       judge(SB, RB, ra, "solve B");
       rgcr_clean = false;
     }
     if(reinit)
     {
-      if(reinit == 1) { solver->done_numeric(); solver->init_numeric(); } else { solver->done(); solver->init(); rgcr_clean = true; }
+      if(reinit == 1) { solver->done_numeric(); heap(poison ? NaN : 0.0); solver->init_numeric(); } else { solver->done(); heap(poison ? NaN : 0.0); solver->init(); rgcr_clean = true; }
       SR R3 = do_solve(*solver, SA, -7.0, &ra); judge(SA, R3, ra, reinit == 1 ? "after done_numeric/init_numeric" : "after done/init");
       if(kind != K_RGCR || rgcr_clean) same(R1, R3, reinit == 1 ? "solve after done_numeric/init_numeric" : "solve after done/init");
     }
